@@ -280,6 +280,22 @@ func init() {
 			w = mutateIntColl(b, pos) || w
 			return before, fmt.Sprint(r.AsArray()), w
 		}},
+		aliasEntry{"List.Concatenate(x, empty)/mutate-result", func(size, pos int) (string, string, bool) {
+			L := col.List[int](n)
+			a, b := L.MakeFromArray(intsN(size)), L.Make()
+			r := L.Concatenate(a, b)
+			before := fmt.Sprint(a.AsArray(), b.AsArray())
+			w := mutateIntColl(r, pos)
+			return before, fmt.Sprint(a.AsArray(), b.AsArray()), w
+		}},
+		aliasEntry{"List.Concatenate(empty, x)/mutate-operand", func(size, pos int) (string, string, bool) {
+			L := col.List[int](n)
+			a, b := L.Make(), L.MakeFromArray(intsN(size))
+			r := L.Concatenate(a, b)
+			before := fmt.Sprint(r.AsArray())
+			w := mutateIntColl(b, pos)
+			return before, fmt.Sprint(r.AsArray()), w
+		}},
 		aliasEntry{"List.Concatenate/mutate-result", func(size, pos int) (string, string, bool) {
 			L := col.List[int](n)
 			a, b := L.MakeFromArray(intsN(size)), L.MakeFromArray(intsN(size))
